@@ -171,8 +171,7 @@ func (o options) active(v string) bool {
 
 // ambiguous: the format cannot represent v unambiguously (MySQL documents this): without an
 // escape character nothing can be escaped, so a value that contains the terminator it is not
-// protected from, the enclosure, the line terminator, or that spells NULL has no faithful
-// representation.
+// protected from, the enclosure or the line terminator has no faithful representation.
 func (o options) ambiguous(v string) bool {
 	if o.esc() != "" {
 		return false
@@ -183,13 +182,15 @@ func (o options) ambiguous(v string) bool {
 	if o.enc() != "" && strings.Contains(v, o.enc()) {
 		return true
 	}
-	return o.overlapsLineTerm(v) || v == "NULL"
+	return o.overlapsLineTerm(v)
 }
 
 // needsEscape: v contains a character that a correct writer has to prefix with the escape
-// character: the escape character itself, the enclosure character when fields are enclosed, or
-// the first character of the field terminator when they are not (MySQL's rule; a value "|"
-// before the terminator "||" otherwise shifts the field boundary) (finding C50-unescaped).
+// character and that buildInto writes as it is: the escape character itself, the enclosure
+// character when fields are enclosed, the first character of the field terminator when they
+// are not (MySQL's rule; a value "|" before the terminator "||" otherwise shifts the field
+// boundary), or a character of the line terminator that buildInto's replacement of whole
+// terminators leaves ambiguous (value ";" before the terminator ";;") (finding C50-unescaped).
 func (o options) needsEscape(v string) bool {
 	if o.esc() == "" {
 		return false
@@ -200,7 +201,32 @@ func (o options) needsEscape(v string) bool {
 	if o.enc() != "" && strings.Contains(v, o.enc()) {
 		return true
 	}
-	return o.enc() == "" && strings.Contains(v, o.term()[:1])
+	if o.enc() == "" && strings.Contains(v, o.term()[:1]) {
+		return true
+	}
+	return o.lineEscapeInsufficient(v)
+}
+
+// lineEscapeInsufficient: buildInto prefixes every whole line terminator inside v with the
+// escape character (MySQL: every occurrence of the terminator's first character). This
+// simulates that writer and a reader that honours escapes: the result is insufficient if
+// the first unescaped terminator in <written value><terminator> is not the one at the end.
+func (o options) lineEscapeInsufficient(v string) bool {
+	if o.esc() == "" {
+		return false
+	}
+	lt, esc := o.lterm(), o.esc()[0]
+	w := strings.ReplaceAll(v, lt, o.esc()+lt) + lt
+	for i := 0; i < len(w); i++ {
+		if w[i] == esc {
+			i++
+			continue
+		}
+		if strings.HasPrefix(w[i:], lt) {
+			return i != len(w)-len(lt)
+		}
+	}
+	return true
 }
 
 // overlapsLineTerm: the line terminator occurs in v, or v followed by the terminator contains
@@ -211,8 +237,11 @@ func (o options) overlapsLineTerm(v string) bool {
 	return strings.Index(v+lt, lt) != len(v)
 }
 
+// nullUnrepresentable: the format has no representation of SQL NULL.
+func (o options) nullUnrepresentable() bool { return o.esc() == "" && o.enc() == "" }
+
 // nullWord: the string 'NULL' (finding C50-null-word: read back as SQL NULL).
-func (o options) nullWord(v string) bool { return v == "NULL" && o.esc() != "" }
+func (o options) nullWord(v string) bool { return v == "NULL" }
 
 // ------------------------------------------------------------------------------------------
 
@@ -253,7 +282,10 @@ func genString(rt *rapid.T, o options) string {
 }
 
 func genCell(rt *rapid.T, c column, o options, reject func(string) string) cell {
-	if rapid.IntRange(0, 4).Draw(rt, "null") == 0 {
+	// without an escape character NULL is written as the word NULL, which LOAD DATA reads as
+	// NULL only when FIELDS ENCLOSED BY is not empty (MySQL documents that otherwise the word
+	// is the string 'NULL'): no NULLs in that format
+	if rapid.IntRange(0, 4).Draw(rt, "null") == 0 && !o.nullUnrepresentable() {
 		return cell{Null: true, Lit: "NULL"}
 	}
 	switch {
@@ -387,13 +419,16 @@ var findings = []finding{
 	{id: "C50-null-word", region: func(o options, v string) bool { return o.nullWord(v) }, wOpts: options{}, wVal: "NULL"},
 }
 
-func inRegion(o options, v string) string {
+// regionsOf returns the ids of all findings whose region contains v (a value can need more
+// than one repair to survive the round trip).
+func regionsOf(o options, v string) []string {
+	var ids []string
 	for _, f := range findings {
 		if f.region(o, v) {
-			return f.id
+			ids = append(ids, f.id)
 		}
 	}
-	return ""
+	return ids
 }
 
 func witness(fail func(string, ...any), f finding) *result {
@@ -426,9 +461,11 @@ func TestC50(t *testing.T) {
 				st.Class("redrawn:ambiguous-format")
 				return "ambiguous"
 			}
-			if id := inRegion(o, v); id != "" && excl[id] {
-				st.Excluded(id)
-				return id
+			for _, id := range regionsOf(o, v) {
+				if excl[id] {
+					st.Excluded(id)
+					return id
+				}
 			}
 			return ""
 		}
@@ -446,7 +483,7 @@ func TestC50(t *testing.T) {
 					if o.active(v.Str) {
 						hasActive = true
 					}
-					if id := inRegion(o, v.Str); id != "" {
+					for _, id := range regionsOf(o, v.Str) {
 						regions[id] = true
 					}
 				}
